@@ -106,7 +106,7 @@ theorem c09_stop_present (s : Stack) (a : Addr) (k : SvcKey) (old : TSEntry SvcK
     (h : TStore.findKey (· == ·) ((s.found.touch a).get a) k = some old) :
     s.foundStop a k =
       (({ s with found := (s.found.touch a).set a (TStore.eraseKey (· == ·) ((s.found.touch a).get a) k) }).cancelTimer
-        isSvcExpiry old.timer).notifyService false k a := by
+        (isSvcExpiryFor a k) old.timer).notifyService false k a := by
   simp [foundStop, h]
 theorem c09_stop_absent (s : Stack) (a : Addr) (k : SvcKey)
     (h : TStore.findKey (· == ·) ((s.found.touch a).get a) k = none) :
@@ -119,7 +119,7 @@ theorem c09_refresh_replaces (s : Stack) (ttl : Nat) (a : Addr) (k : SvcKey) (ol
     (h : TStore.findKey (· == ·) ((s.found.touch a).get a) k = some old) :
     (s.foundRefresh ttl a k).outs = s.outs ∧
     ∃ r : Stack × Option Nat,
-      r = (({ s with found := s.found.touch a }).cancelTimer isSvcExpiry old.timer).armTtl ttl (.expiredSvc a k) ∧
+      r = (({ s with found := s.found.touch a }).cancelTimer (isSvcExpiryFor a k) old.timer).armTtl ttl (.expiredSvc a k) ∧
       (s.foundRefresh ttl a k).loop = r.1.loop := by
   unfold foundRefresh
   simp only [h]
